@@ -12,9 +12,9 @@ Problem format of the module: `n`, the star count `k` and `blocks`, an n x n tab
 import itertools
 
 NAME = "star_battle"
-STATUS = "differential only"
+STATUS = "model+differential"
 THEOREMS = []
-LEAN_CMD = None
+LEAN_CMD = "puz_star_battle"
 
 
 def _grow_regions(rng, n, nreg):
@@ -117,3 +117,8 @@ def classify(problem, description):
     if "raised" in description:
         return "exception"
     return "n%d-k%d" % (problem["n"], problem["k"])
+
+
+def lean_line(problem):
+    rows = " ".join("(" + " ".join(str(v) for v in row) + ")" for row in problem["blocks"])
+    return "(puz_star_battle %d (%s) %d)" % (problem["n"], rows, problem["k"])
